@@ -40,13 +40,13 @@ fn main() {
             for nt in [1usize, 4, 8, 16] {
                 std::env::set_var("FQV_THREADS", nt.to_string());
                 let input = spaces::content(spaces::Family::Ctr, 2, 2000);
-                let o = subject::Opts { mode: None, ecl: Some(0), version: None, mask: None };
+                let o = subject::Opts { mode: None, ecl: Some(0), version: None, mask: None, order: 0 };
                 let t = std::time::Instant::now();
                 pool::par_for(nt * 40, |_| { let _ = subject::build(&input, &o); });
                 println!("threads {}: {:?} per build per thread", nt, t.elapsed() / 40);
             }
             let input = spaces::content(spaces::Family::Ctr, 2, 2000);
-            let o = subject::Opts { mode: None, ecl: Some(0), version: None, mask: None };
+            let o = subject::Opts { mode: None, ecl: Some(0), version: None, mask: None, order: 0 };
             let t = std::time::Instant::now();
             let mut q = None;
             for _ in 0..50 { q = Some(subject::build(&input, &o)); }
